@@ -1,0 +1,99 @@
+//go:build verif
+
+// Export shim for the external verification harness (/verif, hook H4). Compiled only with the build
+// tag `verif`. Wrappers and type aliases only: no consensus logic lives here.
+
+package vbft
+
+import (
+	vconfig "github.com/polynetwork/poly/consensus/vbft/config"
+)
+
+// Aliases of the unexported consensus message types (their fields are exported).
+type (
+	VerifBlockProposalMsg = blockProposalMsg
+	VerifBlockEndorseMsg  = blockEndorseMsg
+	VerifBlockCommitMsg   = blockCommitMsg
+	VerifPeerHandshakeMsg = peerHandshakeMsg
+	VerifPeerHeartbeatMsg = peerHeartbeatMsg
+	VerifBlockFetchMsg    = blockFetchMsg
+	VerifProposalFetchMsg = proposalFetchMsg
+)
+
+// ---- pure functions of node_utils.go / utils.go
+
+func VerifGetParticipantSelectionSeed(block *Block) vconfig.VRFValue {
+	return getParticipantSelectionSeed(block)
+}
+
+func VerifCalcParticipant(vrf vconfig.VRFValue, dposTable []uint32, k uint32) uint32 {
+	return calcParticipant(vrf, dposTable, k)
+}
+
+func VerifCalcParticipantPeers(cfg *BlockParticipantConfig, chain *vconfig.ChainConfig, start, end int) []uint32 {
+	return calcParticipantPeers(cfg, chain, start, end)
+}
+
+func VerifGetCommitConsensus(commitMsgs []*VerifBlockCommitMsg, C int, N int) (uint32, bool) {
+	return getCommitConsensus(commitMsgs, C, N)
+}
+
+// ---- minimal Server + BlockPool (no ledger, no actors, no goroutines)
+
+// VerifNewServer assembles a Server holding only what block-pool bookkeeping and participant
+// selection read: index, chain config, state manager, an empty chain store (chained block 0),
+// a peer pool filled from cfg.Peers and an empty block pool.
+func VerifNewServer(index uint32, cfg *vconfig.ChainConfig) (*Server, error) {
+	s := &Server{Index: index, config: cfg, chainStore: &ChainStore{}}
+	s.stateMgr = newStateMgr(s)
+	s.peerPool = NewPeerPool(0, s)
+	for _, p := range cfg.Peers {
+		if err := s.peerPool.addPeer(p); err != nil {
+			return nil, err
+		}
+	}
+	s.blockPool = &BlockPool{server: s, chainStore: s.chainStore, candidateBlocks: make(map[uint32]*CandidateInfo)}
+	return s, nil
+}
+
+func (self *Server) VerifBuildParticipantConfig(blkNum uint32, block *Block, chainCfg *vconfig.ChainConfig) (*BlockParticipantConfig, error) {
+	return self.buildParticipantConfig(blkNum, block, chainCfg)
+}
+
+func (self *Server) VerifSetParticipantConfig(cfg *BlockParticipantConfig) {
+	self.currentParticipantConfig = cfg
+}
+
+func (self *Server) VerifPeerConnected(peerIdx uint32) error {
+	return self.peerPool.peerConnected(peerIdx)
+}
+
+func (self *Server) VerifIsEndorser(blkNum uint32, peerIdx uint32) bool {
+	return self.isEndorser(blkNum, peerIdx)
+}
+
+func (self *Server) VerifNewBlockProposal(msg *VerifBlockProposalMsg) error {
+	return self.blockPool.newBlockProposal(msg)
+}
+
+func (self *Server) VerifNewBlockEndorsement(msg *VerifBlockEndorseMsg) error {
+	return self.blockPool.newBlockEndorsement(msg)
+}
+
+func (self *Server) VerifNewBlockCommitment(msg *VerifBlockCommitMsg) error {
+	return self.blockPool.newBlockCommitment(msg)
+}
+
+func (self *Server) VerifEndorseDone(blkNum uint32, C uint32) (uint32, bool, bool) {
+	return self.blockPool.endorseDone(blkNum, C)
+}
+
+func (self *Server) VerifCommitDone(blkNum uint32, C uint32, N uint32) (uint32, bool, bool) {
+	return self.blockPool.commitDone(blkNum, C, N)
+}
+
+func (self *Server) VerifAddSignaturesToBlock(block *Block, forEmpty bool) error {
+	self.blockPool.lock.Lock()
+	defer self.blockPool.lock.Unlock()
+	return self.blockPool.addSignaturesToBlockLocked(block, forEmpty)
+}
